@@ -84,7 +84,7 @@ def frame_checks(name, model, w, fdata, consts, fam):
     return out
 
 
-def check_model(name, model):
+def check_model(name, model, branch=None):
     fam = R.base_of(name) + '*'
     out = []
     try:
@@ -96,6 +96,34 @@ def check_model(name, model):
         out.append((f'C20|nondeterministic|{fam}', f'{name}: two get_data() calls differ'))
     consts = sorted(model.constants, key=lex_key)
     nontrivial = False
+    if branch is not None:
+        # a model read from a branch knows every uninterpreted sentence that occurs there as a literal (plain or negated):
+        # the export must list it at its world, whatever value it has
+        from pytableaux.lang import Operated, Operator
+        want = {}
+        for n in branch:
+            x = n.get('sentence')
+            if x is None:
+                continue
+            if type(x) is Operated and x.operator is Operator.Negation:
+                x = x.lhs
+            try:
+                if model.is_sentence_opaque(x):
+                    want.setdefault(n.get('world') or 0, set()).add(x)
+            except Exception:
+                pass
+        if want:
+            fr = data['Frames']['values'] if R.is_modal(name) else None
+            for w, sents in sorted(want.items()):
+                try:
+                    fdata = next(f['value'] for f, ww in zip(fr, data['Worlds']['values']) if ww == w) if fr is not None else data
+                    listed = {v['input'] for v in fdata['Opaques']['values']}
+                except Exception:
+                    listed = set()
+                miss = sorted(str(x) for x in sents - listed)
+                if miss:
+                    out.append((f'C20|missing-sentence|{fam}|Opaques-of-branch', f'{name} w{w}: the branch has the uninterpreted literal(s) {miss}, '
+                                f'which the export does not list (it lists {sorted(map(str, listed))})'))
     if R.is_modal(name):
         worlds = data['Worlds']['values']
         pairs = [tuple(p) for p in data['Access']['values']]
@@ -144,7 +172,7 @@ def check_case(case):
         if b.model is None:
             continue
         n += 1
-        res, t = check_model(name, b.model)
+        res, t = check_model(name, b.model, b)
         nt = nt or t
         out += [(fp, f'{prover.case_str(case)}: {d}') for fp, d in res]
     return out, dict(nontrivial=nt, models=n)
@@ -171,7 +199,9 @@ def run_shard(shard, acc):
             sample = f'{c["logic"]} model from calls: ' + c08.show_calls([c08.call_from_json(x) for x in c['calls']])
         else:
             logic = data.draw(gen.logic_name())
-            prem, con = data.draw(gen.argument(prof.for_logic(logic), 2))
+            # fragments the logic does not interpret stay in with a small weight: they are its uninterpreted sentences
+            lp = prof.for_logic(logic, modal=prof.w_modal if R.is_modal(logic) else 2, quant=prof.w_quant if R.is_quantified(logic) else 1)
+            prem, con = data.draw(gen.argument(lp, 2))
             case = prover.mk_case(logic, prem, con, order=data.draw(st.integers(0, 3)))
             case['kind'] = 'proof'
             sample = 'models of the open branches of ' + prover.case_str(case)
